@@ -262,6 +262,24 @@ def run_case(case, ctx, st):
                                   observed={"params": params, "score_named": score, "score_precomputed": score2, "equal": flags, "geminis": [hist[1], hist2[1]] if hist is not None else None}, expected="bit-identical model, path and score")
             except Exception as e:
                 ctx.violation("named-vs-precomputed", f"precomputed-run-raises/{name}/{type(e).__name__}", observed=repr(e)[:200], expected="same as named")
+    # decoration by add_mlcl_constraint without any constraint must not change what the model trains with
+    if name != "Kauri" and not use_path and i % 3 == 0:
+        from gemclus import add_mlcl_constraint
+        est4 = add_mlcl_constraint(gen.build_estimator(name, params))
+        st.reset(None)
+        try:
+            with warnings.catch_warnings():
+                warnings.simplefilter("ignore")
+                est4.fit(X, None if y is None else np.array(y, copy=True))
+                score4 = est4.score(X, y)
+            ctx.count("decorated_without_constraints_compared")
+            s1, s4 = fitted_state(est, name), fitted_state(est4, name)
+            if not (len(s1) == len(s4) and all(np.array_equal(a, b, equal_nan=True) for a, b in zip(s1, s4))
+                    and (score == score4 or (score != score and score4 != score4))):
+                ctx.violation("decoration-neutral", f"decorated-without-constraints-differs-from-plain/{name}",
+                              observed={"params": params, "score_plain": score, "score_decorated": score4}, expected="bit-identical")
+        except Exception as e:
+            ctx.violation("decoration-neutral", f"decorated-fit-raises/{name}/{type(e).__name__}", observed=repr(e)[:200], expected="same as plain")
     # missing precomputed matrix is an error (Kauri: error or warned fallback)
     if (pre is not None or (name == "Kauri" and params.get("kernel") == "precomputed")) and i % 2 == 0:
         est3 = gen.build_estimator(name, params)
